@@ -185,8 +185,12 @@ class Hub:
         else:
             raise KeyError(self.policy)
         if self.demoted:
-            # demoted actors (schedule choice "D") run only when nothing else can
-            en = [a for a in en if a not in self.demoted] + [a for a in en if a in self.demoted]
+            # demoted actors (schedule choice "D") run only when nothing else can; fairness: a demotion ends after DEMOTE_LIMIT
+            # steps (executions are a few hundred steps long, so the limit only matters when the other actors spin, e.g. a
+            # retry loop that waits for something only the demoted actor can do)
+            self.demoted = [(a, t) for (a, t) in self.demoted if self.steps - t < DEMOTE_LIMIT]
+            dem = [a for (a, t) in self.demoted]
+            en = [a for a in en if a not in dem] + [a for a in en if a in dem]
         return en
 
     def switch_in(self, a):
@@ -241,7 +245,7 @@ class Hub:
                 # (one deviation; what a preemption means under a non-preemptive scheduler, CHESS-style)
                 if len(en) < 2:
                     raise Nondeterminism(f"step {i}: schedule demotes the default actor but it is the only enabled one")
-                self.demoted.append(en[0])
+                self.demoted.append((en[0], self.steps))
                 en = en[1:] + en[:1]
                 c = 0
             if c >= len(en):
@@ -317,6 +321,9 @@ class VThread:
 
     def is_alive(self):
         return self._actor is not None and not self._actor.dead
+
+
+DEMOTE_LIMIT = 2500
 
 
 class VLock:
